@@ -134,7 +134,7 @@ type world struct {
 	probeRp  int            // replies to unrecorded probes
 	bkProbes []*net.UDPAddr // source addresses of unrecorded probes at the backend
 	epochAt  int            // >= 0: backend records from this position on come from sockets created after an idle
-	                        // timeout; an equal source port number is then an OS reuse, not the same socket
+	// timeout; an equal source port number is then an OS reuse, not the same socket
 
 	backend *net.UDPConn
 	users   []*net.UDPConn
